@@ -327,18 +327,22 @@ class CoqEvalError(Exception):
 # known findings
 # ------------------------------------------------------------------------------------------------
 def load_known_findings(prop):
-    """open findings for this property: key -> description."""
+    """open findings for this property: key -> description. Read-only at run time."""
     res = {}
-    p = os.path.join(ROOT, "KNOWN_FINDINGS")
-    if not os.path.exists(p):
-        return res
-    for line in open(p):
-        line = line.strip()
-        if not line.startswith("open:"):
+    files = [os.path.join(ROOT, "KNOWN_FINDINGS")]
+    d = os.path.join(ROOT, "known_findings")
+    if os.path.isdir(d):
+        files += [os.path.join(d, f) for f in sorted(os.listdir(d)) if f.endswith(".txt")]
+    for p in files:
+        if not os.path.exists(p):
             continue
-        m = re.match(r"open:\s+property=(\w+)\s+key=(\S+)\s+(.*)$", line)
-        if m and m.group(1) == prop:
-            res[m.group(2)] = m.group(3)
+        for line in open(p):
+            line = line.strip()
+            if not line.startswith("open:"):
+                continue
+            m = re.match(r"open:\s+property=(\w+)\s+key=(\S+)\s+(.*)$", line)
+            if m and m.group(1) == prop:
+                res[m.group(2)] = m.group(3)
     return res
 
 
